@@ -43,6 +43,18 @@ CHECKS = {
  "C18": dict(cat="exploration", tech="brute-force reference monitor + permutation-equivariance metamorphic monitor + pinhole round trips",
    text="knn, nbr_filter, voxel_filter (centroid and random), knn_filter (with and without radius), random_filter compared with O(n^2) numpy definitions on clouds of 1..300 points in 1..6 dims with extra channels, outliers first/middle/last, single point / single voxel, all k, norms 1/2/inf, radii placed inside distance gaps, voxel quotients away from integers, and on random permutations of the cloud; point2pixel / pixel2point / reprojerr / cart2homo / homo2cart round trips and model values incl. negative focal lengths, extrinsics and batched intrinsics.",
    note="Trusted: geom_ref; index equality only on rows without near-ties; decisions exactly at a radius or voxel face are not judged.", ref="DESIGN.md 3 C18"),
+ "C12": dict(cat="exploration", tech="unambiguous-history monitor: interval tokens in a free non-commutative monoid (any wrong partner/order/duplicate poisons the output); exhaustive length sweep; group folds vs longdouble reference products",
+   text="cumops / cumops_ on interval tokens for every L in 1..4096 (exhaustive for the index schedule, both orders), cummul/cumprod (and in-place variants, defaults) through a Tensor subclass carrying the token operation, every dim of rank 1-4 tensors incl. permuted/strided views with sentinels, purity of out-of-place and aliasing of in-place variants; group-valued folds (24 call variants, four groups, both dtypes) vs the sequential fold in reference matrices.",
+   note="Trusted: the token monoid (self-tested each run) and lie_ref; exhaustive: true refers to the cumops/cumops_ length sweep.", ref="DESIGN.md 3 C12"),
+ "C14": dict(cat="exploration", tech="KKT monitor on an independent roll-out model: feasibility, recomputed cost, autograd and costate gradients, dense reduced-QP optimum, perturbation test; history monitor over repeated solves",
+   text="LQR on LTI/LTV systems (batch 1-3, horizon 1-20, dims 1-6 incl. n_state=1, stable/unstable, PD Q with kappa up to 1e6, random p, c1, x_init, nominal trajectories) must start at x_init, satisfy the reference dynamics, report the recomputed cost, have zero gradient w.r.t. every input (two independent gradient computations) and agree with a dense QP optimum where conditioning allows; independence from u_traj and from earlier solves / system time; MPC on linear systems returns the same optimum, on nonlinear systems a feasible trajectory with consistent cost.",
+   note="Trusted: lqr_ref (no Riccati recursion, no pypose); box constraints and LTV with dt != 1 not exercised.", ref="DESIGN.md 3 C14"),
+ "C15": dict(cat="exploration", tech="icontract snapshot/ensure on System.__call__ + reference time automaton over random call histories; symbolic (sympy) Jacobian oracle for generated NLS; second-order slope test",
+   text="Every event of random call sequences (forward, reset, systime assignment, set_refpoint, mode switches) is shadowed by a reference counter automaton; LTI/LTV outputs equal the reference affine equations with time-indexed matrices; for randomly generated smooth time-dependent NLS (expression trees with exact rational constants and symbolic Jacobians) A,B,C,D equal the partial Jacobians at the reference point - also when read after further calls -, c1,c2 make the affine model exact there, and the model error shrinks as h^2.",
+   note="Trusted: dyn_ref (sympy-derived Jacobians evaluated in numpy); batched NLS linearisation is not documented and not demanded.", ref="DESIGN.md 3 C15"),
+ "C16": dict(cat="exploration", tech="reference-recursion monitor + metamorphic monitors (chunking invariance over all compositions, input-rank equivalence) + covariance validity",
+   text="IMU preintegration outputs vs the sequential recursion in reference matrices for every frame count (quick: every F<=64 and a sample above; thorough: every F<=200), B=1..4, dt in [1e-4,1], with/without known rotation, gravity 0 / 9.81007, both dtypes; one call vs all compositions of the frame axis for F<=8 and random chunkings above with reset=False; ranks (H),(F,H),(B,F,H) equivalent; explicit init_state hand-over; covariance symmetric PSD.",
+   note="Trusted: lie_ref; the oracle uses R_i * dR_ij (the order under which chunking invariance can hold) and the module's own gravity buffer; covariance chunk-invariance is not demanded by the property.", ref="DESIGN.md 3 C16"),
 }
 NOT_BUILT = "check not built yet (in progress); no claim is made for this property in this commit"
 def main():
